@@ -767,6 +767,8 @@ fn run(ctx: &Ctx) -> Stats {
     } else {
         sharded(ctx, ctx.threads, |shard, seed| workload(ctx, shard, seed))
     };
+    // real-time supplement (timer starvation cannot manifest under the paused clock)
+    super::c18_rt::run(ctx, &mut stats);
     stats.exhaustive_scopes.push(
         "per client version and keep-alive K: PINGRESP delay {0,K/4,K/2,K-1ms,K,K+1ms,never} x first delayed ping {0,1,2} x traffic {none,in,out,both} x phase slot 0..7 (K/8 grid); silence start on the K/8 grid over [0,2K]; 13 connect/handshake timings x {first,second connection} x timeout {1,3,5}s".into(),
     );
